@@ -45,6 +45,11 @@ def run(prog, R, tier="quick", only_rule=None):
     # "never changes the result for keys outside R": dropping tables keeps the order of the remaining runs
     from rules.props import c07
     c07.c07a(prog, R, rid="C15.h")
+    # clear / drop_range exclude compactions only if every compaction takes the (read side of the) same lock
+    c06.c06f(prog, R, c06.LockFacts(prog, c06.CLASSES), rid="C15.i")
+    # a snapshot taken before keeps finding its version: the version GC bound
+    from rules.props import c20
+    c20.c20d(prog, R, rid="C15.j")
 
 
 def c15a(prog, R):
